@@ -574,4 +574,56 @@ example : ((Op.pull wReg "f" wMan2).exec wEnvA wH3).ok = true :=
   pull_succeeds_reachable (hash := wHash) ⟨rfl, fun bs => by simp [wEnvA, wEnv], fun _ _ h => h⟩ wReg_honest rfl
     wH3_reach wReg (fun _ _ h => h) "f" wMan2 (by decide)
 
+/-! ## F27 — a registry that serves damaged bytes once (outside the honest-registry hypothesis of the theorems)
+
+The model covers it (`reg` maps the digest to the damaged bytes: download, rename into place, failed
+`verifyBlob`, removal), and since round 7 the damaged-registry pulls of the driver are compared with it by
+exact L1 (effects, crash states, states after start-up).  The two known findings are Lean-checked
+witnesses here. -/
+
+/-- a registry (a bad CDN node) that serves one wrong byte for d2 -/
+def wRegBad : Digest → Option Bytes := fun d => if d = "d2" then some [9] else none
+def wPullBad : Op := .pull wRegBad "f" wMan2
+/-- fixed variant, `OLLAMA_NOPRUNE` -/
+def wEnvN : Env := { wEnvA with noPrune := true }
+
+/-- the uninterrupted damaged pull is harmless: it fails and leaves no blob d2 behind -/
+theorem F27_uninterrupted_damaged_pull_fails_cleanly :
+    (wPullBad.exec wEnvN wStoreA).ok = false ∧
+    get (run (wPullBad.exec wEnvN wStoreA).effs wStoreA) (.blob "d2") = none := by decide
+
+/-- two fresh layers, the FIRST one damaged: the pull stops at the failed verification of d2 (the tree
+verifies each layer right after its download) — nothing of d3 is fetched -/
+def wRegBad2 : Digest → Option Bytes := fun d => if d = "d2" then some [9] else if d = "d3" then some [3] else none
+theorem F27_damaged_pull_stops_at_first_mismatch :
+    ((Op.pull wRegBad2 "f" ⟨[⟨"d2", 1⟩], ⟨"d3", 1⟩⟩).exec wEnvN wStoreA).ok = false ∧
+    ((Op.pull wRegBad2 "f" ⟨[⟨"d2", 1⟩], ⟨"d3", 1⟩⟩).exec wEnvN wStoreA).effs = (wPullBad.exec wEnvN wStoreA).effs := by
+  decide
+
+/-- **F27b** (`download.run` renames `-partial` to the blob name BEFORE `verifyBlob`): kill the damaged
+pull between the rename and the removal that follows the failed verification (13 of its 14 effects); no
+start-up prune; the repeated pull — honest registry — takes the damaged blob as a cache hit, reports
+SUCCESS, and model f is readable with a layer whose bytes do not hash to its name. -/
+theorem F27b_damaged_blob_becomes_cache_hit :
+    CrashPrefix (wPullBad.exec wEnvN wStoreA).effs ((wPullBad.exec wEnvN wStoreA).effs.take 13) ∧
+    (let st1 := restartWith wEnvN (run ((wPullBad.exec wEnvN wStoreA).effs.take 13) wStoreA)
+     (wPull.exec wEnvN st1).ok = true ∧
+     readable (run (wPull.exec wEnvN st1).effs st1) "f" = some wMan2 ∧
+     get (run (wPull.exec wEnvN st1).effs st1) (.blob "d2") = some (.raw [9]) ∧ wHash [9] ≠ "d2") := by
+  refine ⟨⟨13, Or.inl rfl⟩, by decide⟩
+
+/-- **F27a** (resume trusts bytes that were never verified): kill the damaged pull after the part record
+that says `Completed = Size` is in place and before the record is removed (11 effects); no start-up prune;
+the repeated pull — honest registry — resumes from the record, renames the damaged bytes into place and
+FAILS in the verification; the pull after that one succeeds with the right bytes. -/
+theorem F27a_resume_trusts_unverified_bytes :
+    CrashPrefix (wPullBad.exec wEnvN wStoreA).effs ((wPullBad.exec wEnvN wStoreA).effs.take 11) ∧
+    (let st1 := restartWith wEnvN (run ((wPullBad.exec wEnvN wStoreA).effs.take 11) wStoreA)
+     let st2 := restartWith wEnvN (run (wPull.exec wEnvN st1).effs st1)
+     get st1 (.part "d2" 0) = some (.prec ⟨0, 0, 1, 1⟩) ∧ get st1 (.pfile "d2") = some (.raw [9]) ∧
+     (wPull.exec wEnvN st1).ok = false ∧
+     (wPull.exec wEnvN st2).ok = true ∧
+     get (run (wPull.exec wEnvN st2).effs st2) (.blob "d2") = some (.raw [2])) := by
+  refine ⟨⟨11, Or.inl rfl⟩, by decide⟩
+
 end OllamaVerif.C12
